@@ -487,7 +487,8 @@ def _run_one(o, mod, dem, ll, wd, tier, seed, R, log, irsym):
     mismatches = []
     for vec in vecs:
         nat = run_native(exe, vec, wd, "val")
-        if nat.get("harness_error") or (nat["rc"] not in (0,) and not nat["assume_false"]):
+        native_crashed = nat["rc"] < 0 or nat["rc"] in (139, 134, 136)
+        if nat.get("harness_error") or (nat["rc"] not in (0,) and not nat["assume_false"] and not native_crashed):
             mismatches.append({"inputs": vec, "why": "native run failed rc=%s %s %s" % (nat["rc"], nat.get("harness_error", ""), nat["stderr"][-300:])})
             continue
         Ec = irsym.Engine(mod, exact=False, inputs={n: v for n, v in vec}, max_steps=int(opts.get("max_steps", 3000000)))
@@ -496,6 +497,14 @@ def _run_one(o, mod, dem, ll, wd, tier, seed, R, log, irsym):
             rc = Ec.run(o.entry)
         except Exception as e:
             mismatches.append({"inputs": vec, "why": "concrete engine run failed: %s" % e})
+            continue
+        engine_memerr = any(k.startswith("memory-error") for k in rc.ended)
+        if native_crashed or engine_memerr:
+            # an invalid memory access on this vector: encoding and native build agree when both see it
+            if native_crashed and engine_memerr:
+                agreed += 1
+            else:
+                mismatches.append({"inputs": vec, "why": "native rc=%s (crash: %s) vs engine path ends %s" % (nat["rc"], native_crashed, dict(rc.ended))})
             continue
         a = [(k, l, ok, x, y) for k, l, ok, x, y in rc.closes]
         b = nat["lines"]
@@ -527,6 +536,14 @@ def _run_one(o, mod, dem, ll, wd, tier, seed, R, log, irsym):
         nat = run_native(exe, vec, wd, "cex")
         failing = [l for l in nat["lines"] if l[1] == c["label"] and l[2] == 0]
         how = "native replay of the slice"
+        if c.get("kind") == "memory" and not failing:
+            # an invalid access on this path: the sanitizer build of the same slice must stop on it
+            aexe = build_native(ll, wd, o.entry, asan=True)
+            nat2 = run_native(aexe, vec, wd, "cexa")
+            if nat2["rc"] not in (0,) and ("AddressSanitizer" in nat2["stderr"] or "runtime error" in nat2["stderr"] or nat2["rc"] < 0):
+                failing = [("memory", c["label"], 0)]
+                how = "native run of the slice under AddressSanitizer/UBSan stops on the access"
+                nat = nat2
         if c.get("kind") == "lock" and c.get("gsym"):
             # deterministic confirmation: the variable sits on a write-protected page while the watch is on
             wexe = build_watch_native(ll, wd, o.entry, mod, [x["gsym"] for x in res.cex if x.get("gsym")],
